@@ -2805,8 +2805,12 @@ class RockRidge:
                 minimum = RRSLRecord.Component.length(mincomp)
                 if minimum > curr_comp_area_length:
                     # There wasn't enough room in the last SL record
-                    # for more data.  Set the 'continued' flag on the old
-                    # SL record, and then create a new one.
+                    # for more data.  The next SL record goes into the
+                    # continuation area, so there has to be one.
+                    if self.dr_entries.ce_record is None:
+                        return -1
+                    # Set the 'continued' flag on the old SL record, and
+                    # then create a new one.
                     curr_sl.set_continued()
                     if offset != 0:
                         # If we need to continue this particular
